@@ -801,6 +801,48 @@ def sc_putlocks(params, obs, save):
     pool.terminate()
 
 
+def sc_putlocks_close(params, obs, save):
+    """more producers blocked in apply_async than there are slots when close()
+    comes: every one of them returns (without a job), the running jobs finish,
+    and the quiet pool has all its slots free - nobody keeps a slot for a job
+    that does not exist"""
+    up = []
+    params = dict(params, putlocks=True)
+    pool = _mkpool(params, up)
+    n = params['nproc']
+    wd = os.environ.get('VERIF_WORKDIR', '/tmp')
+    gate = os.path.join(wd, 'gate-%d' % os.getpid())
+    first = [pool.apply_async(tasks.t_gate, ('hold.%d' % i, gate, 60)) for i in range(n)]
+    _wait_for(lambda: all(h.accepted() for h in first), 15)
+    k = params['producers']
+    ret = {}
+
+    def producer(i):
+        h = pool.apply_async(tasks.t_value, ('late.%d' % i, 0.01))
+        ret[i] = (time.monotonic(), h is not None)
+    ths = [threading.Thread(target=producer, args=(i,), daemon=True) for i in range(k)]
+    for t in ths:
+        t.start()
+    time.sleep(params.get('hold', 1.0))
+    obs['returned_while_full'] = len(ret)
+    pool.close()
+    t_close = time.monotonic()
+    log('closed')
+    _wait_for(lambda: len(ret) == k, 8)
+    obs['returned_after_close'] = len(ret)
+    obs['handles_after_close'] = sum(1 for v in ret.values() if v[1])
+    open(gate, 'w').close()
+    obs['first'] = [_outcome(lambda o=o: o.get(30)) for o in first]
+    _wait_for(lambda: len(ret) == k, 10)
+    obs['returned_at_quiescence'] = len(ret)
+    time.sleep(0.5)
+    with pool._putlock._cond:
+        obs['value_at_quiescence'] = pool._putlock._value
+        obs['bound'] = pool._putlock._initial_value
+    save()
+    pool.terminate()
+
+
 # ---------------------------------------------------------------- C11 ----
 
 def sc_startup_burst(params, obs, save):
